@@ -23,12 +23,14 @@ q(a). q(b).
 t(1). t(2). t(3).
 r(a,1). r(b,2). r(c,3).
 u(X,Y) :- q(X), r(X,Y).
+v(_).
+w(X,Y) :- t(1), X = a, Y = second.
 app([],X,X).
 app([H|T],Y,[H|R]) :- app(T,Y,R).
 len([],0).
 len([H|T],N) :- len(T,M), N is M+1.
 """
-RENAME = [("p", 1), ("p2", 2)]
+RENAME = [("p", 1), ("p2", 2), ("tp", 1)]
 MAXANS = 12
 
 
